@@ -2,7 +2,6 @@ package pcosmos
 
 import (
 	"bytes"
-	"encoding/hex"
 	"os"
 	"sync"
 	"testing"
@@ -182,12 +181,7 @@ func runC19(ctx *ev.Ctx, c c19Case) {
 		}
 		r := &runner{ctx: ctx, c: c30Case{Router: router, Sets: c.Sets}, rt: routerOf(router), known: map[string]string{}}
 		r.e = newEnv(router)
-		for _, s := range c.Sets {
-			r.known[hex.EncodeToString(r.rt.setHash(s, 10))] = setContent(s)
-			if router == "cosmos" {
-				r.known[hex.EncodeToString(r.rt.setHash(s, 11))] = setContent(s)
-			}
-		}
+		r.learnSets()
 		slots[i] = &c19Slot{r: r, router: router}
 	}
 	w := slots[0].r.e.w
